@@ -78,7 +78,7 @@ def gen(rng, tier, index):
         warm_at = int(rng.integers(ninit, kw["n_to_select"]))  # reach n in two warm-started steps
     decoy = None
     if rng.random() < 0.2:  # the estimator object was fitted before, on other data of the same shape
-        decoy = {"X": rng.normal(size=X.shape) * unit * 3.0, "y": None if y is None else rng.normal(size=len(X))}
+        decoy = {"X": forms.sibling_or(X, rng.normal(size=X.shape), unit * 3.0), "y": None if y is None else rng.normal(size=len(X))}
     if rng.random() < 0.12 and float(np.abs(X).max()) > 0:  # whole-number data (counts, grid indices) with an integer dtype
         X = np.round(X / float(np.abs(X).max()) * 40.0)
         spec["xint"] = gens.pick(rng, ("int64", "int32"))
